@@ -311,6 +311,9 @@ func (f *Fresh) callResult(call *ssa.Call, idx int) int {
 	if fn := calleeFunc(cc); fn != nil && f.c.w.inModule(fn) && fn.Blocks != nil {
 		res := f.funcResults(fn)
 		if idx < len(res) {
+			if res[idx] == notFresh && f.extendsFreshArg(call, fn, idx) {
+				return shallow
+			}
 			return res[idx]
 		}
 	}
@@ -322,6 +325,42 @@ func (f *Fresh) callResult(call *ssa.Call, idx int) int {
 		}
 	}
 	return notFresh
+}
+
+// extendsFreshArg: result idx of the module function fn is, at every return, an append chain (append(append(p, …), …),
+// joined by phis: a loop) that starts from slice parameters of fn and from slices that are fresh in fn, and at this call
+// every such parameter is bound to a fresh (or nil) slice — `AppendMapped(dst, src, f)` called with dst a literal, nil or
+// the caller's own fresh list. Like the builtin append, the helper then returns its argument's array or a new one, so
+// the result is (shallowly) as fresh as that argument: the summary of fn alone cannot say so (funcResults: a parameter of
+// an exported or generic helper is not fresh), the binding of the parameter at this call can. A parameter whose address
+// is taken lives in a cell and is not recognised (its loads are judged as before); what is appended is not looked at,
+// hence never more than shallow. The defect stays visible: bound to a long-lived buffer (a field of the connection, a
+// parameter of the caller), the argument is not fresh and neither is the result.
+func (f *Fresh) extendsFreshArg(call *ssa.Call, fn *ssa.Function, idx int) bool {
+	if _, isSlice := fn.Signature.Results().At(idx).Type().Underlying().(*types.Slice); !isSlice {
+		return false
+	}
+	nParam, ok := 0, true
+	allInstrs(fn, func(i ssa.Instruction) {
+		ret, isRet := i.(*ssa.Return)
+		if !isRet || !ok || isRecoverBlockReturn(ret) || idx >= len(ret.Results) {
+			return
+		}
+		for _, root := range appendOrigins(retVals(ret)[idx]) {
+			if p, isParam := root.(*ssa.Parameter); isParam {
+				arg := argFor(call, fn, p)
+				if arg == nil || f.level(arg) < shallow {
+					ok = false
+				}
+				nParam++
+				continue
+			}
+			if f.level(root) < shallow {
+				ok = false
+			}
+		}
+	})
+	return ok && nParam > 0
 }
 
 func maxInt(a, b int) int {
